@@ -59,6 +59,8 @@
                                                    (the reader's sections straddle the purge): reply of neither order
      C10_reader_add_reply_not_linearizable         get_subscription_info || add of the same user: balance after the charge,
                                                    locators before the store: reply of neither order
+     C10_register_add_replies_not_linearizable     register || add of the same user: the receipt carries the balance after the
+                                                   renewal and the expiry before it: replies of neither order (state: reg ; add)
      C10_reader_block_reply_not_linearizable       get || a block without purge (it expires the subscription and carries the
                                                    dispute): expiry test before, tables after: reply of neither order
    Hence `get || anything` is settled: state and the other thread's reply always (C10_writer_among_readers_runs_alone);
@@ -69,8 +71,11 @@
    that changes only one of the two (C10_reader_against_one_thread reduces it to the block's solo states).
    OPEN (no proof, no counterexample; the exhaustive controlled exploration of the check finds every final
    state of these pairs equal to a sequential order within its preemption bound, up to the height stamps):
-     register || add, add || add (different appointment), add || disconnect,
-     register || the watcher's and the responder's part of a block.
+     add || add (different appointment), add || disconnect, register || add of ANOTHER user, register || the watcher's
+     and the responder's part of a block - as far as the final STATE goes; the REPLIES of writer pairs are checked on
+     the real tower by the `linear` monitor (the orders ending in the run's final state must contain one with the run's
+     replies): where a request's critical sections straddle the other thread's write the receipt mixes two orders
+     (known findings `linear:*`, e.g. C10_register_add_replies_not_linearizable).
    For these pairs "equal to a sequential order" can only hold modulo the ORDER OF ROWS in the gatekeeper's map and the
    tables (gk_put moves the user to the front, INSERT appends): two threads that write different users / different
    appointments leave the rows in the order of their critical sections, which need not be the order of either
@@ -615,6 +620,21 @@ Theorem C10_reader_block_reply_not_linearizable :
   snd (run_sched w_exp ps (in_order [1; 0]%nat)) = [Some (TOut (OGetRes (GetExpired 122))); Some (TOut OBlockRes)].
 Proof. exact reader_straddles_the_expiring_block. Qed.
 
+(* register || add_appointment of the same user (one of the pairs that were open): the add_appointment receipt carries the
+   balance AFTER the renewal and the expiry BEFORE it (the expiry is read in has_subscription_expired, the balance written
+   in add_update_appointment: two critical sections of `users`): the replies of neither order, the state of register ; add *)
+Theorem C10_register_add_replies_not_linearizable :
+  let ps := [register_p 1; w_add] in
+  snd (run_sched w_reg ps w_add_across_renewal) =
+    [Some (TOut (ORegisterRes (RegOk 20 120 920))); Some (TOut (OAddRes (AddOk 120 1 19 520)))] /\
+  snd (run_sched w_reg ps (in_order [0; 1]%nat)) =
+    [Some (TOut (ORegisterRes (RegOk 20 120 920))); Some (TOut (OAddRes (AddOk 120 1 19 920)))] /\
+  snd (run_sched w_reg ps (in_order [1; 0]%nat)) =
+    [Some (TOut (ORegisterRes (RegOk 19 120 920))); Some (TOut (OAddRes (AddOk 120 1 9 520)))] /\
+  gk_users (fst (run_sched w_reg ps w_add_across_renewal)) = gk_users (fst (run_sched w_reg ps (in_order [0; 1]%nat))) /\
+  db_apps (fst (run_sched w_reg ps w_add_across_renewal)) = db_apps (fst (run_sched w_reg ps (in_order [0; 1]%nat))).
+Proof. exact receipt_mixes_the_renewal. Qed.
+
 (* add_appointment || the block with its dispute is NOT linearizable in the height stamps (start_block 120
    next to a tracker stamped 121; the orders give 120/120 and 121/121) — while C10_no_missed_breach holds *)
 Theorem C10_add_connect_not_linearizable :
@@ -653,6 +673,7 @@ Print Assumptions C10_reader_reply_not_linearizable.
 Print Assumptions C10_reader_purge_reply_not_linearizable.
 Print Assumptions C10_reader_add_reply_not_linearizable.
 Print Assumptions C10_reader_block_reply_not_linearizable.
+Print Assumptions C10_register_add_replies_not_linearizable.
 Print Assumptions C10_no_missed_breach_refined.
 Print Assumptions C10_cache_refinement_init.
 Print Assumptions C10_cache_refinement_step.
